@@ -118,6 +118,20 @@ int main(int argc, char** argv) {
                 for (auto& c : p["counts"].arr()) { PETask t(r++); ex.execute(t, c.num()); }
             }   // destructor
             flushEvents(line);
+        } else if (kind == "p2d" && p.has("shared") && p["shared"].num()) {
+            // executor supplied by the caller; "procs" is the processor count of the machine
+            SimTK_verifSetNumProcessors(p["procs"].num());
+            {
+                ParallelExecutor pe(p["t"].num());
+                Parallel2DExecutor ex0(p["grid"].num(), pe);
+                Parallel2DExecutor ex1(ex0);     // copy: clone() of the implementation
+                Parallel2DExecutor& ex = (p.has("copy") && p["copy"].num()) ? ex1 : ex0;
+                P2DTask t;
+                for (int k = 0; k < (p.has("reps") ? p["reps"].num() : 1); ++k)
+                    ex.execute(t, (Parallel2DExecutor::RangeType)p["range"].num());
+            }
+            SimTK_verifSetNumProcessors(0);
+            flushEvents(line);
         } else if (kind == "p2d") {
             {
                 Parallel2DExecutor ex(p["grid"].num(), p["procs"].num());
